@@ -225,4 +225,61 @@ theorem empty_counter_grows (c : Counts) (n : Nat) :
     · split <;> exact Nat.le_refl _
     · exact Nat.le_refl _
 
+-- ===================================================================== C05: end to end through `recv_headers`
+
+/-- `Inner::recv_headers` for a new stream beyond the advertised limit: the frame is dropped, no
+    stream is created, nothing is queued for `accept`; only `next_stream_id` and `refused` move -/
+theorem recvHeaders_refuses (s : Streams) (h : HeadersIn) (nextId : Nat)
+    (hsv : s.counts.isServer = true) (hmax : ¬ h.sid > s.recv.maxStreamId) (hnew : s.store.findKey? h.sid = none)
+    (hr : s.recv.refused = none) (hnext : s.recv.nextStreamId = some nextId) (hid : nextId ≤ h.sid)
+    (hodd : h.sid % 2 = 1) (hfull : s.counts.canIncNumRecvStreams = false) :
+    (s.recvHeaders h).2 = .ok () ∧ (s.recvHeaders h).1.store = s.store ∧ (s.recvHeaders h).1.counts = s.counts ∧
+    (s.recvHeaders h).1.recv.pendingAccept = s.recv.pendingAccept ∧ (s.recvHeaders h).1.recv.refused = some h.sid := by
+  have hcan : (if s.counts.isServer then !(false || h.sid % 2 == 0) else !(!false || !(h.sid % 2 == 0))) = true := by
+    simp [hsv, hodd]
+  obtain ⟨h1, h2, h3, h4, h5⟩ := recvOpen_refuses s h.sid false nextId hr hnext hid hcan hfull
+  unfold Streams.recvHeaders
+  simp only [hmax, if_false, hnew, hsv, Bool.not_true, Bool.false_and, Bool.false_eq_true]
+  generalize hro : s.recvOpen h.sid false = ro at h1 h2 h3 h4 h5
+  obtain ⟨s1, r1⟩ := ro
+  simp only at h1 h2 h3 h4 h5
+  subst h1
+  exact ⟨rfl, h3, h4, h5, h2⟩
+
+-- ===================================================================== C05: a freed slot is taken
+
+/-- as soon as there is room, the head of `pending_open` is opened -/
+theorem popPendingOpen_opens (s : Streams) (k : Nat) (rest : List Nat) (hc : s.counts.canIncNumSendStreams = true)
+    (hq : s.prio.pendingOpen = k :: rest) : s.popPendingOpen.2 = some k := by
+  unfold Streams.popPendingOpen Streams.qPop
+  have : s.getQ .pendingOpen = k :: rest := hq
+  simp only [hc, if_true, this]
+
+-- ===================================================================== C18: the budget through `recv_data`
+
+/-- `Inner::recv_data`: a DATA frame (without END_STREAM) that the stream accepts but that exhausts
+    the DATA-frame budget (or the empty-frame allowance) kills the connection with
+    `GOAWAY(ENHANCE_YOUR_CALM, "too_many_data_frames")` -/
+theorem recvData_flood (s : Streams) (id k : Nat) (payload : Bytes) (pad : Option Nat)
+    (hk : s.store.findKey? id = some k)
+    (hok : (s.recvRecvData k payload false pad).2 = .ok ())
+    (hbud : ((s.recvRecvData k payload false pad).1.counts.recordDataFrame payload.length).2 = false) :
+    (s.recvData id payload false pad).2 = .error (PErr.libraryGoAwayData ENHANCE_YOUR_CALM "too_many_data_frames") := by
+  unfold Streams.recvData
+  simp only [hk]
+  unfold Streams.transition
+  dsimp only
+  generalize hr : s.recvRecvData k payload false pad = r at hok hbud
+  obtain ⟨s1, res⟩ := r
+  simp only at hok hbud
+  subst hok
+  simp only [Bool.not_false, if_true, Bool.false_eq_true, if_false]
+  generalize hrec : s1.counts.recordDataFrame payload.length = rec at hbud
+  obtain ⟨c, ok⟩ := rec
+  simp only at hbud
+  subst hbud
+  simp only [Bool.false_eq_true, if_false]
+  unfold Streams.resetOnRecvStreamErr PErr.libraryGoAwayData
+  rfl
+
 end H2V.Lemmas.ConnCountsP
